@@ -275,6 +275,7 @@ def generate(rng, tier, index):
         "cells": rng.choice([2, 4, 6]),
         "base": rng.choice([0.0, 0.2, 0.5]),
         "slope": rng.choice([0.05, 0.15, 0.4]),
+        "ret": rng.choice(["tuple", "tuple", "list", "iter"]),  # any iterable is a legal solver result
     }
     sc["score"] = "fake" if shape == "plain" or rng.random() < 0.3 else None
     sc["uniqueness"] = "fake" if shape == "plain" or rng.random() < 0.3 else None
@@ -881,6 +882,16 @@ def check_value(p, cur, nxt, path, out):
             check_value(sub, None if cur is None else cur[i], nxt[i], f"{path}[{i}]", out)
 
 
+def _as(kind, result):
+    """The solver callback's result in the container the scenario asks for (`is_sat, *answer = ...`
+    unpacks any iterable)."""
+    if kind == "list":
+        return list(result)
+    if kind == "iter":
+        return iter(result)
+    return result
+
+
 class _Trace:
     def __init__(self):
         self.seq = []  # digests of problems handed to the solver, in order
@@ -1075,7 +1086,7 @@ def exec_gen(sc, variant, res, check=True, retain=True):
         rec["is_sat"] = is_sat
         if not is_sat:
             purity(f"solver call {rec['n']}")
-            return (False,) + _make_answer(solver_cfg["shape"], [False] * solver_cfg["cells"], [0] * solver_cfg["cells"], cspuz, E, A)
+            return _as(solver_cfg.get("ret"), (False,) + _make_answer(solver_cfg["shape"], [False] * solver_cfg["cells"], [0] * solver_cfg["cells"], cspuz, E, A))
         flat = flatten(problem)
         nd = sum(1 for i, v in enumerate(flat) if i >= len(initial_flat) or initial_flat[i] != v) + abs(len(flat) - len(initial_flat))
         p_dec = min(0.97, solver_cfg["base"] + solver_cfg["slope"] * nd)
@@ -1087,7 +1098,7 @@ def exec_gen(sc, variant, res, check=True, retain=True):
         rec["decided"] = decided
         rec["unique_expected"] = ref_all_decided(ans)
         purity(f"solver call {rec['n']}")
-        return (True,) + ans
+        return _as(solver_cfg.get("ret"), (True,) + ans)
 
     def find_call(answer):
         for rec in reversed(tr.calls):
